@@ -17,4 +17,12 @@ def HeaderOut.ofModel (h : Header) : HeaderOut :=
     absent_num := h.absentNum, tot_cells_size := h.totCellsSize, root_list := h.rootList,
     index := if h.fl.hasIdx then some h.index else none, cells_data := h.cellsData }
 
+/-- two returned dicts are equal when all entries are. -/
+theorem HeaderOut.eq_of (a b : HeaderOut) (h1 : a.has_idx = b.has_idx) (h2 : a.hash_crc32 = b.hash_crc32)
+    (h3 : a.has_cache_bits = b.has_cache_bits) (h4 : a.flags = b.flags) (h5 : a.size_bytes = b.size_bytes)
+    (h6 : a.offset_bytes = b.offset_bytes) (h7 : a.cells_num = b.cells_num) (h8 : a.roots_num = b.roots_num)
+    (h9 : a.absent_num = b.absent_num) (h10 : a.tot_cells_size = b.tot_cells_size) (h11 : a.root_list = b.root_list)
+    (h12 : a.index = b.index) (h13 : a.cells_data = b.cells_data) : a = b := by
+  cases a; cases b; simp_all
+
 end TonVerif.Generated.BocHeader
